@@ -132,9 +132,23 @@ def utf8_gen(tier):
     def gen():
         n = 0
         L = 4 if tier == "thorough" else 3
-        for l in range(0, L + 1):
-            for t in itertools.product(U16, repeat=l):
-                b = bytes(t)
+        def inputs():
+            for l in range(0, L + 1):
+                for t in itertools.product(U16, repeat=l):
+                    yield bytes(t)
+            # well-formed text around the edges of every encoding length (1, 2, 3 and 4 bytes; every lead byte range of 4-byte forms)
+            cps = [0x41, 0x7f, 0x80, 0x7ff, 0x800, 0xfff, 0x1000, 0xcfff, 0xd000, 0xd7ff, 0xe000, 0xfffd, 0xffff, 0x10000, 0x3ffff, 0x40000, 0x7ffff, 0x80000,
+                   0xbffff, 0xc0000, 0xfffff, 0x100000, 0x10fffe, 0x10ffff]
+            for c in cps:
+                e = chr(c).encode("utf-8", "surrogatepass")
+                yield e
+                yield b"a" + e + b"b"
+                yield e + e
+            for c1 in cps[::3]:
+                for c2 in cps[1::3]:
+                    yield chr(c1).encode("utf-8", "surrogatepass") + b"-" + chr(c2).encode("utf-8", "surrogatepass")
+        for b in inputs():
+            if True:
                 ops = ["isolate", op_ctx(0, True), op_setvar("B", "s" + b.hex()),
                        op_run("import utf8; u = utf8(b); n = u.count(); rs = u.rawsize(); st = u.string(); em = u.empty();")]
                 for p in UPOS:
@@ -777,7 +791,10 @@ STATES = {"fresh": "", "closed": "zz = o.close();", "null-object": "o = null;",
           # sqlite3 only: a statement is prepared / was stepped / the connection was closed or reopened under it
           "prepared": 'zz = o.prepare("select 1 union select 2");', "stepped": 'zz = o.prepare("select 1 union select 2"); zz = o.execute(); zz = o.fetch(rv);',
           "prepared-closed": 'zz = o.prepare("select 1"); zz = o.close();', "prepared-reopened": 'zz = o.prepare("select 1"); zz = o.close(); zz = o.open(path);',
-          "finalized": 'zz = o.prepare("select 1"); zz = o.finalize();'}
+          "finalized": 'zz = o.prepare("select 1"); zz = o.finalize();',
+          # file only: an open object is opened again on something that cannot be opened
+          "failed-reopen": 'zz = o.write("abc"); zz = o.open("/nonexistent/dir/file", "r");', "failed-reopen-w": 'zz = o.open("/nonexistent/dir/file", "w");',
+          "reopened-read": 'zz = o.write("abc"); zz = o.open(path, "r");'}
 SQL_L = ['"select 1"', '"create table if not exists z(a)"', '"insert into z values(?)"', '"not sql at all"', '""', "str()"]
 
 
@@ -789,6 +806,8 @@ def lattice_gen(tier):
                 if sname == "closed" and mod in ("csv", "utf8"):
                     continue
                 if sname in ("prepared", "stepped", "prepared-closed", "prepared-reopened", "finalized") and mod != "sqlite3":
+                    continue
+                if sname in ("failed-reopen", "failed-reopen-w", "reopened-read") and mod != "file":
                     continue
                 for mname, kinds in methods:
                     doms = []
@@ -869,6 +888,45 @@ def cursor_gen(tier):
     return gen
 
 
+# what an object reports about its own state after a failed operation
+STATE_PROGS = [
+    ("sqlite3-failed-open", 'import sqlite3; d = sqlite3(); print d.isopen(); print d.open("/nonexistent/dir/x.db"); print d.isopen(); print d.close(); print d.open(":memory:") d.isopen(); '
+     'print d.open("/nonexistent/dir/y.db") d.isopen();', "FALSE\nFALSE\nFALSE\nFALSE\nTRUETRUE\nFALSEFALSE\n"),
+    ("sqlite3-closed", 'import sqlite3; d = sqlite3(":memory:"); print d.isopen(); print d.close() d.isopen(); print d.close();', "TRUE\nTRUEFALSE\nFALSE\n"),
+    ("file-failed-open", 'import file; f = file(); print f.isopen(); print f.open("/nonexistent/dir/f", "r") != 0; print f.isopen(); print f.close() != 0;', None),
+    ("file-failed-reopen", 'import file; f = file(path, "w"); print f.isopen(); zz = f.open("/nonexistent/dir/f", "r"); print f.isopen(); '
+     'begin zz = f.write("x"); print "written"; exception when others then print "refused"; end;', None),
+]
+
+
+def state_gen(tier):
+    def gen():
+        for n, (tag, prog, want) in enumerate(STATE_PROGS):
+            path = os.path.join(sdir(), "st-%d-%d" % (os.getpid(), n))
+            ops = ["isolate", op_ctx(0, True), "rmfile %s" % hx(path), op_setvar("PATH", "s" + path.encode().hex()), op_run(prog), op_out(0)]
+            yield Case("st%d" % n, ops, {"kind": "state", "tag": tag, "prog": prog, "want": want})
+    return gen
+
+
+def check_state(case, res, vs):
+    m = case.meta
+    st = res["steps"]
+    out = unhex(st[5].get("out", "")).decode("latin-1")
+    if m["want"] is not None:
+        if st[4].get("r") != "ok" or out != m["want"]:
+            vs.append(Violation("state:%s" % m["tag"], "%s gives %s %r, expected %r" % (m["prog"], st[4].get("r"), out, m["want"]), case))
+    else:
+        # the reports of one object must be consistent: not open after a failed open, and then nothing is written
+        lines = out.split("\n")
+        if st[4].get("r") not in ("ok", "rerr"):
+            vs.append(Violation("state:%s" % m["tag"], "%s -> %s" % (m["prog"], st[4]), case))
+        elif m["tag"] == "file-failed-open" and lines[:3] != ["FALSE", "TRUE", "FALSE"]:
+            vs.append(Violation("state:%s" % m["tag"], "%s prints %r" % (m["prog"], out), case))
+        elif m["tag"] == "file-failed-reopen" and not (lines[:2] == ["TRUE", "FALSE"] and (len(lines) < 3 or lines[2] in ("refused", ""))):
+            vs.append(Violation("state:%s" % m["tag"], "%s prints %r" % (m["prog"], out), case))
+    return vs, True
+
+
 def check_cursor(case, res, vs):
     m = case.meta
     st = res["steps"]
@@ -894,6 +952,8 @@ def check(case, res):
     k = case.meta["kind"]
     if k == "cursor":
         return check_cursor(case, res, vs)
+    if k == "state":
+        return check_state(case, res, vs)
     if k == "csv":
         return check_csv(case, res, vs)
     if k == "utf8":
@@ -912,7 +972,7 @@ def run(tier):
     deadline = t0 + (3000 if tier == "thorough" else 420)
     build.ensure("asan", bins=("vdrv",))
     total = Result()
-    for name, g in (("csv", csv_gen(tier)), ("utf8", utf8_gen(tier)), ("file", file_gen(tier)), ("bigfile", bigfile_gen(tier)), ("sqlite3", sql_gen(tier)), ("lattice", lattice_gen(tier)), ("cursor", cursor_gen(tier))):
+    for name, g in (("csv", csv_gen(tier)), ("utf8", utf8_gen(tier)), ("file", file_gen(tier)), ("bigfile", bigfile_gen(tier)), ("sqlite3", sql_gen(tier)), ("lattice", lattice_gen(tier)), ("cursor", cursor_gen(tier)), ("state", state_gen(tier))):
         total.merge(explore("%s-%s-%s" % (PROP, tier, name), g, check, chunk=60, deadline=deadline))
     rule = ("csv: all rows of 1 field (length <=%d), 2 fields, 3 short fields over {a, space, separator, quote, LF, CR} x 4 formats, one-shot and line by line; "
             "utf8: all byte strings of length <=%d over 16 class bytes x positions; file: all sequences of <=%d operations x 6 open modes against a twin; "
